@@ -322,6 +322,12 @@ def main():
     for mode in ("one-file", "p-each"):
         cases.append((["@@\nvar x expression\n@@\n-trace(x)\n+x\n", "@@\nvar x expression\n@@\n-import \"net/url\"\n\n-url.Parse(x)\n+myParse(x)\n"],
                       [{"kind": "reproduced-shadow"}, {"kind": "reproduced-shadow"}], OBJ_SRC, mode, None))
+    # an identifier that a change WRITES (it stands in the '+' pattern itself, not in captured code) has no object: a selector on
+    # it counts as a use of the package of that name until the file is parsed again (known finding F56)
+    LIT_SRC = "package a\n\nimport \"example.com/foo\"\n\nfunc f() {\n\tfoo.X()\n}\n\nfunc g(foo T) {\n\told(foo)\n}\n"
+    for mode in ("one-file", "p-each"):
+        cases.append((["@@\n@@\n-old(foo)\n+foo.Y()\n", "@@\n@@\n-import \"example.com/foo\"\n+import \"example.com/bar\"\n\n-foo.X()\n+bar.X()\n"],
+                      [{"kind": "patch-literal-shadow"}, {"kind": "patch-literal-shadow"}], LIT_SRC, mode, None))
     # a name that one change declares as a metavariable is plain code in the next (each change has its own declarations)
     for chs, src in (((["@@\nvar x expression\n@@\n-foo(x)\n+bar(x)\n", "@@\n@@\n-x.Close()\n+x.Shutdown()\n"]),
                       "package p\n\nfunc h() {\n\tfoo(1)\n\tx.Close()\n\ty.Close()\n\tz.w.Close()\n}\n"),
@@ -392,9 +398,10 @@ def main():
             ck.violation("an output does not parse (combined: %s, chained: %s)" % (dc[:60], dh[:60]), rep)
         elif dc != dh:
             ck.violation("combined run and chain of single-change runs produce different programs", rep,
-                         finding_class="printer-normalises-between-runs" if metas and metas[0].get("kind") == "printer-normalises" else None)
+                         finding_class={"printer-normalises": "printer-normalises-between-runs",
+                                        "patch-literal-shadow": "patch-identifier-without-object"}.get(metas[0].get("kind") if metas else None))
         # model correspondence on the combined patch
-        if mo["skipped"] or (metas and metas[0].get("kind") == "printer-normalises"):
+        if mo["skipped"] or (metas and metas[0].get("kind") in ("printer-normalises", "patch-literal-shadow")):
             continue        # (the engine comparison reads gopatch's tree back from the printed file: 0X1F comes back as 0x1F)
         enginecheck.report(ck, "c09#%d" % k, pairs[k], mo, "none", {"mode": mode})
     # ---------------- which patch files are loaded, and in which order (Model/Loader.v): -p in order, then the -P list line by
